@@ -33,7 +33,7 @@ def generated_configs(n, seed):
     rng = random.Random(sub_seed(seed, "det-configs"))
     out = []
     for i in range(n):
-        nm = rng.choice([1, 2, 3])
+        nm = rng.choice([1, 2, 3, 3])
         names = ["S%d" % j for j in range(nm)]
         cfg = {"simulation": {"markets": list(names), "agents": ["F", "MM"], "sessions": [], "fundamentalCorrelations": {"pairwise": []}}}
         for j, nme in enumerate(names):
@@ -48,6 +48,12 @@ def generated_configs(n, seed):
             cfg["IDX"] = {"class": "IndexMarket", "tickSize": 0.01, "marketPrice": 305.0, "markets": list(names)}
             cfg["simulation"]["markets"].append("IDX")
             allm.append("IDX")
+            if nm == 3 and rng.random() < 0.7:
+                # two index markets over overlapping components, one arbitrageur with access to both
+                cfg["IDX"]["markets"] = names[:2]
+                cfg["IDX2"] = {"class": "IndexMarket", "tickSize": 0.01, "marketPrice": 318.0, "markets": names[1:]}
+                cfg["simulation"]["markets"].append("IDX2")
+                allm.append("IDX2")
             cfg["ARB"] = {"class": "ArbitrageAgent", "numAgents": 3, "markets": list(allm), "assetVolume": [40, 60], "cashAmount": 150000,
                           "orderVolume": 1, "orderThresholdPrice": 1.0}
             cfg["simulation"]["agents"].append("ARB")
@@ -58,6 +64,14 @@ def generated_configs(n, seed):
                     "marginType": rng.choice(["fixed", "normal"])}
         cfg["MM"] = {"class": "MarketMakerAgent", "numAgents": 1, "markets": [names[0]], "assetVolume": 50, "cashAmount": 10000,
                      "targetMarket": names[0], "netInterestSpread": 0.02, "orderTimeLength": 2}
+        if rng.random() < 0.6:
+            # inheritance meets id ranges: the parent declares a from/to range, is instantiated itself, and a listed child
+            # extends it with its own range (listed before or after its parent)
+            k = cfg["F"].pop("numAgents")
+            cfg["F"]["from"], cfg["F"]["to"] = 0, k - 1
+            cfg["F2"] = {"extends": "F", "from": 50, "to": 50 + rng.randint(0, 3), "cashAmount": 7000}
+            ags = cfg["simulation"]["agents"]
+            ags.insert(ags.index("F") + rng.choice([0, 1]), "F2")
         evs = []
         if rng.random() < 0.7:
             cfg["FS"] = {"class": "FundamentalPriceShock", "target": names[0], "triggerTime": 3, "priceChangeRate": -0.1, "shockTimeLength": 2}
